@@ -91,7 +91,7 @@ def verify_recursive_contract(src, reg, prop, dense=False, direction=1):
     return IC.verify_integrate(src, reg, prop, callbacks=0, extra_inv=NO_CALLBACK_INV, extra_post=NO_CALLBACK_POST)
 
 
-def verify_integrate_events(src, reg, prop, n=1, terminals=(False,), direction=1, extra_inv=(), extra_post=(), callbacks=0, outcomes=None, dense=False):
+def verify_integrate_events(src, reg, prop, n=1, terminals=(False,), direction=1, extra_inv=(), extra_post=(), callbacks=0, outcomes=None, dense=False, infinite=False):
     """outcomes: None = every outcome of handle_events; else a list of tuples of active event indices (and the string "raise") -- the
     outcomes this run explores.  Runs over a partition of the outcomes together verify the loop body (the jobs are run in parallel)."""
     ex = IC.base_executor(src, reg, prop)
@@ -317,6 +317,22 @@ def verify_integrate_events(src, reg, prop, n=1, terminals=(False,), direction=1
     # exceptional exit: records of earlier calls untouched, and the step interpolants still describe recorded steps only (C12: the
     # next call may start from here)
     c.ensures_exc = list(c.ensures_exc) + ev_post[:2] + sol_inv
+    if infinite:
+        # integrate(+-inf, events=...): the loop runs until a terminal event ends it (`implicit_integration`); nothing in the contract may
+        # mention the (infinite) target: the direction literal replaces it, the only normal exit is the terminal stop
+        c.sorts["t"] = ("const", B.InfVal(direction))
+        drop_tf = lambda cl: "tf_" not in cl
+        inv_all = [x for x in c.loops[0]["invariant"] if drop_tf(x)]
+        inv_all[0:0] = ["implicit_integration == True"] + (list(NO_CALLBACK_INV) if not callbacks else [])   # (the guard no longer tests dt != 0)
+        c.loops[0] = dict(c.loops[0], invariant=inv_all)
+        c.requires = [r for r in c.requires if drop_tf(r)]
+        t0_ = "old(self.__t)[old(self.counter)]"
+        common_post = ["old(self.counter) <= self.counter",
+                       "forall(lambda i: implies(0 <= i and i <= old(self.counter), self.__t[i] == old(self.__t)[i] and self.__y[i] == old(self.__y)[i]))",
+                       "forall(lambda i: implies(old(self.counter) < i and i <= self.counter, (%d) * (self.__t[i] - self.__t[i - 1]) > 0))" % direction,
+                       "(%d) * (self.__t[self.counter] - %s) >= 0" % (direction, t0_)]
+        c.ensures = ["len(self.__t) == self.counter + 1 and len(self.__y) == self.counter + 1"] + common_post + ev_post + sol_inv + ["self.__int_status == 2", TERMINAL]
+        c.ensures_exc = [e for e in c.ensures_exc if drop_tf(e)] + common_post
     fields = dict(c.sorts["self"][2])
     if dense:
         fields["_OdeSystem__dense_output"] = ("const", True)
@@ -358,7 +374,8 @@ def verify_integrate_events(src, reg, prop, n=1, terminals=(False,), direction=1
                 if not reach[k] and may_be(s_, x, k):
                     reach[k] = True
     tag = "OdeSystem.integrate"
-    reg.ground("%s/%s/cover#a-normal-return-with-status-1" % (prop, tag), "cover", tag, reach[1], backend="z3")
+    if not infinite:
+        reg.ground("%s/%s/cover#a-normal-return-with-status-1" % (prop, tag), "cover", tag, reach[1], backend="z3")
     explored = all_outcomes(n, terminals) if outcomes is None else [o for o in outcomes if not isinstance(o, str)]
     if any(terminals[i] for o in explored for i in o):
         reg.ground("%s/%s/cover#a-normal-return-with-status-2-after-a-terminal-event" % (prop, tag), "cover", tag, reach[2], backend="z3")
@@ -368,9 +385,9 @@ def verify_integrate_events(src, reg, prop, n=1, terminals=(False,), direction=1
 # ----------------------------------------------------------------------------------------------------------------
 # jobs (run in parallel processes by props/common.run_jobs)
 # ----------------------------------------------------------------------------------------------------------------
-def config_label(n, terminals, direction, callbacks=0, dense=False):
-    return "integrate[events=%d,terminal=%s,%s%s%s]" % (n, "".join("T" if x else "f" for x in terminals), "forward" if direction > 0 else "backward",
-                                                         ",callback" if callbacks else "", ",dense" if dense else "")
+def config_label(n, terminals, direction, callbacks=0, dense=False, infinite=False):
+    return "integrate[events=%d,terminal=%s,%s%s%s%s]" % (n, "".join("T" if x else "f" for x in terminals), "forward" if direction > 0 else "backward",
+                                                           ",callback" if callbacks else "", ",dense" if dense else "", ",target=inf" if infinite else "")
 
 
 def all_outcomes(n, terminals):
@@ -392,10 +409,10 @@ def outcome_partition(n, terminals):
     return parts
 
 
-def job_events(reg, src, prop, n, terminals, direction, callbacks=0, outcomes=None, part=None, dense=False):
-    label = config_label(n, terminals, direction, callbacks, dense) + ("" if part is None else "#part%d" % part)
+def job_events(reg, src, prop, n, terminals, direction, callbacks=0, outcomes=None, part=None, dense=False, infinite=False):
+    label = config_label(n, terminals, direction, callbacks, dense, infinite) + ("" if part is None else "#part%d" % part)
     outs = None if outcomes is None else [tuple(o) if not isinstance(o, str) else o for o in outcomes]
-    ex, c, rets = verify_integrate_events(src, reg, "%s/%s" % (prop, label), n=n, terminals=tuple(terminals), direction=direction, callbacks=callbacks, outcomes=outs, dense=dense)
+    ex, c, rets = verify_integrate_events(src, reg, "%s/%s" % (prop, label), n=n, terminals=tuple(terminals), direction=direction, callbacks=callbacks, outcomes=outs, dense=dense, infinite=infinite)
     return dict(ex.stats)
 
 
